@@ -9,7 +9,7 @@ import subprocess
 import sys
 
 from .. import aegen, boot
-from ..result import Result, h64
+from ..result import Result, h64, keep_going
 
 ID = 'C16'
 LEVEL = 'exploration'
@@ -325,7 +325,7 @@ def run_shard(spec):
     rng = random.Random(spec['seed'])
     w = get_world()
     n = 0
-    while res.elapsed() < spec['budget'] or n < 8:
+    while keep_going(res, spec) or n < 8:
         bad, eng = run_case(w, rng, spec['index'] * 1000 + n, res)
         n += 1
         res.count('evaluations')
